@@ -105,6 +105,23 @@ def _strategy(dll):
         "grants": st.lists(st.sampled_from([1, 2, 3, 255]), min_size=1, max_size=2),
         "lat": st.fixed_dictionaries({"S": st.lists(st.sampled_from([0.0002, 0.0005, 0.001, 0.0025]), min_size=1, max_size=2)}),
     })
+    # fifth structured shape (whole case): a peer never answers; the application starts its next transfer to that peer just
+    # while the stack is writing its T3 time-out abort (frame writes take 2 ms)
+    def timeout_retry(peer, n1, n2, off, tail):
+        return [{"op": "send", "peer": peer, "kind": "rts", "n": n1, "gap": 0.0, "chain": False, "fate": {"f": "silent", "k": 0}},
+                {"op": "send", "peer": peer, "kind": "rts", "n": n2, "gap": 1.25 + off, "chain": False, "fate": {"f": "clean", "k": 0}}] + tail
+    at_timeout = st.fixed_dictionaries({
+        "dll": st.just(dll),
+        "ops": st.builds(timeout_retry, st.integers(0, 2), size, size, st.sampled_from([0.0002, 0.0005, 0.001, 0.0015, 0.0025]),
+                         st.lists(st.one_of(send, inbound), max_size=3)),
+        "reply_lat": st.sampled_from([[0.001, 0.003], [0.02]]),
+        "sas": st.sampled_from([[0x30, 0x90, 0x91, 0x92], [0x00, 0x90, 0x91, 0x92], [0xFD, 0x7F, 0x80, 0x00]]),
+        "tx_time": st.sampled_from([0.002, 0.002, 0.0005]), "max_cmdt": st.sampled_from([1, 3, 255]),
+        "grants": st.lists(st.sampled_from([1, 2, 255]), min_size=1, max_size=2),
+        "lat": st.fixed_dictionaries({"S": st.lists(st.sampled_from([0.0002, 0.0005, 0.001, 0.0025]), min_size=1, max_size=2)}),
+    })
+    if fd:
+        return st.one_of(general, general, general, general, race, own_abort, at_timeout)
     return st.one_of(general, general, general, general, race, own_abort)
 
 
